@@ -150,6 +150,16 @@ Proof.
   clear. revert v. induction fs as [|[f args] rest IH]; intro v; cbn; [reflexivity|].
   destruct (eval_filter call s f args (Some v) true); [apply IH|reflexivity].
 Qed.
+(* 3b. a call at the head of a pipe, g(args) | f1 | ... | fn: g is called with its arguments alone (no piped value),
+   and the rest is applied left to right to its result *)
+Theorem head_call_left_to_right g gargs fs :
+  eval_pipe X call s {| p_initial := []; p_segs := SFilter g gargs :: map (fun fa => SFilter (fst fa) (snd fa)) fs |} =
+  match eval_filter call s g gargs None false with XVal v => apply_chain fs v | e => e end.
+Proof.
+  unfold eval_pipe. cbn [p_initial p_segs eval_segment]. destruct (eval_filter call s g gargs None false) as [v|e]; [|reflexivity].
+  revert v. induction fs as [|[f args] rest IH]; intro v; cbn; [reflexivity|].
+  destruct (eval_filter call s f args (Some v) true); [apply IH|reflexivity].
+Qed.
 (* 4. an unknown function, and an error inside a function, are errors that name the function *)
 Theorem unknown_function_named f args (input : option val) (w : bool) : call f ((if w then [match input with Some v => v | None => VNil end] else []) ++ map (resolve_argument s) args) = None ->
   eval_filter call s f args input w = XErr (Some f).
